@@ -43,9 +43,13 @@ CURATED = [
     "$rax rbx * rbx /", "$rax rbx % 1 +", ".cfa ^ ^", "$rax ^ rbx ^ +", "8 8 8 + +", "8 8 + 8", "8 + 8", "$rax .undef +", ".undef",
     "$rax 0 /", "$rax 0 %", "$rax 0 @", "$rax 1 @", "$rax 9223372036854775807 @", "-9223372036854775808 -8 /", "-8 2 /", "-8 2 %",
     "$rax -8 /", "$rax -8 @", "9223372036854775807 1 +", "-9223372036854775808 1 -", "$rax 9223372036854775808 +", "$rcx 8 +", "rcx 8 +",
-    ".ra 8 +", "8x", "$rax junk +", "x$y", ".cfa .cfa -", "  $rax   8   +  ", "$rax\t8\n+", "", " ",
+    ".ra 8 +", "8x", "$rax junk +", "x$y", ".cfa .cfa -",
     ".cfa 16 + ^ 8 - ^", "$rax 4 * rbx + 8 - ^", "1 2 4 8 16 + + + +", "16 8 4 2 1 - - - -", "$rax rbx @", "$rax rbx /", "rbx $rax %",
 ]
+
+# white-space handling is decided in a harness of its own (token separation by runs of blanks, tabs and newlines,
+# leading/trailing blanks, the empty program)
+WHITESPACE = ["  $rax   8   +  ", "$rax\t8\n+", "$rax  8 +", "", " "]
 
 def tokens_of(text):
     return text.split()
@@ -176,10 +180,11 @@ wf3 = [f"{a} {b} {op}" for a in VALS for b in VALS for op in OPS2]
 # literal / negative literal on the right); the remaining 96 operand pairs of the full 5 x 5 grid are thorough-tier
 wf3_q = [f"{a} {b} {op}" for a in ["$rax", ".cfa", "8"] for b in ["rbx", "8", "-8"] for op in OPS2]
 wf3_t = [p for p in wf3 if p not in set(wf3_q)]
-quick = core2 + wf3_q + CURATED
+quick = core2 + wf3_q + CURATED + WHITESPACE
 # most expensive groups first: cargo-kani starts harnesses in the order given
 emit(wf3_q, "q", "binop3", out, cnt)
 emit(CURATED, "q", "curated", out, cnt)
+emit(WHITESPACE, "q", "whitespace", out, cnt)
 emit(core2, "q", "core_len2", out, cnt)
 nprog["quick"] = len(quick)
 seen = set(quick)
